@@ -641,6 +641,95 @@ fn section_with<E: Elem + Clone>(name: &'static str, class: usize) -> Section {
     }
 }
 
+// ---- vectors destroyed by the unwinder: "every element is dropped exactly once" also when the vector is a local (or a field of a
+// local, or is dropped from inside another destructor) of a frame that panics
+const UNWIND_HOWS: [&str; 5] = ["explicit_panic", "insert_out_of_range", "remove_out_of_range", "field_of_local", "dropped_by_a_destructor"];
+
+fn unwind_case(n: usize, how: usize, spare: usize) -> Result<u64, (String, String)> {
+    struct Holder {
+        v: Option<CVec<Dc>>,
+    }
+    struct Outer {
+        v: Option<CVec<Dc>>,
+    }
+    impl Drop for Outer {
+        fn drop(&mut self) {
+            // the vector is released while this destructor runs (during the unwinding)
+            drop(self.v.take());
+        }
+    }
+    let d = DropScope::new();
+    let (live0, _) = alloc::live();
+    let r = guarded(|| {
+        let mut src: Vec<Dc> = Vec::with_capacity(n + spare);
+        for i in 0..n {
+            src.push(Dc::new(i as u64));
+        }
+        let mut cv = CVec::from(src);
+        match how {
+            0 => panic!("boom"),
+            1 => cv.insert(n + 1, Dc::new(100)),
+            2 => {
+                let _ = cv.remove(n);
+            }
+            3 => {
+                let _h = Holder { v: Some(cv) };
+                panic!("boom");
+            }
+            _ => {
+                let _o = Outer { v: Some(cv) };
+                panic!("boom");
+            }
+        }
+        drop(cv);
+    });
+    if r.is_ok() {
+        return Err(("vec:unwind_no_panic".into(), format!("{} on a vector of {} did not panic", UNWIND_HOWS[how], n)));
+    }
+    let bad = d.not_equal(1);
+    if !bad.is_empty() {
+        return Err(("vec:unwind_drops".into(), format!("a CVec of {} elements (spare capacity {}) destroyed by the unwinder ({}): elements {:?} were not dropped exactly once, drop counts {:?}", n, spare, UNWIND_HOWS[how], bad, d.counts())));
+    }
+    let (live1, _) = alloc::live();
+    if live1 != live0 {
+        return Err(("vec:unwind_leak".into(), format!("{} allocation(s) still live after a CVec of {} elements was destroyed by the unwinder ({})", live1 - live0, n, UNWIND_HOWS[how])));
+    }
+    Ok(digest(&(n, how, spare, d.counts())))
+}
+
+fn run_unwind(n: usize, how: usize, spare: usize) -> CaseOut {
+    alloc::begin();
+    let r = guarded(|| unwind_case(n, how, spare));
+    let rep = alloc::end();
+    match r {
+        Err(()) => CaseOut::bad("panic", "panicked"),
+        Ok(Err(v)) => CaseOut { obs: 0, nontrivial: true, violation: Some(v) },
+        Ok(Ok(obs)) => CaseOut { obs, nontrivial: n > 0, violation: alloc_violation(&rep) },
+    }
+}
+
+fn unwind_section() -> Section {
+    Section {
+        name: "unwind_drop",
+        explore: Box::new(|cx: &Cx| {
+            let nmax = cx.tier.pick(5, 9);
+            cx.rule("unwind_drop", &format!("a CVec of 0..={} drop-counting elements (exact capacity / 3 spare) that is a local, a field of a local, or owned by a value whose destructor releases it, of a frame that panics (explicit panic, out-of-range insert, out-of-range remove) and is destroyed by the unwinder; the panic is caught above: every element dropped exactly once, the buffer freed, allocator balanced", nmax));
+            for n in 0..=nmax {
+                for how in 0..UNWIND_HOWS.len() {
+                    for spare in [0usize, 3] {
+                        let case = serde_json::json!({"n": n, "how": how, "how_name": UNWIND_HOWS[how], "spare": spare});
+                        cx.eval("unwind_drop", &case, || run_unwind(n, how, spare));
+                    }
+                }
+            }
+        }),
+        replay: Box::new(|c| {
+            let g = |k: &str| c[k].as_u64().unwrap() as usize;
+            run_unwind(g("n"), g("how"), g("spare"))
+        }),
+    }
+}
+
 fn main() {
     quiet_panics();
     let mut sections = vec![section::<u64>("u64"), section::<u8>("u8"), section::<Z>("zst"), section::<Dc>("dropcounter"), section::<DcZst>("zst_drop"), section::<Fat>("fat_heap"),
@@ -660,6 +749,7 @@ fn main() {
         Section { name: "fat_heap_inplace_bfs", explore: Box::new(|_| {}), replay: Box::new(|c| replay_with::<Fat>(c, 6, CLASS)) },
     ];
     sections.extend(extra);
+    sections.push(unwind_section());
     explore::run_main(CheckDef {
         property: "C11",
         level: "model_checking",
